@@ -134,5 +134,24 @@ def r4(ctx):
     C26.r3(ctx)
 
 
-RULES = [r1, r2, r3, r4]
-FLOORS = {'C19-R1': 6, 'C19-R2': 8, 'C19-R3': 20, 'C26-R1': 4}
+def r5(ctx):
+    ctx.rule('C19-R5', 'an answer built for an NTS request is always sent with an NTS authenticator: ExtensionFieldData::serialize consults the cipher provider on every path, and '
+             'whenever it yields a cipher every path to a successful return writes the encrypted/authenticator field (it must not depend on the authenticated/encrypted lists '
+             'being non-empty: nts_timestamp_response can produce both empty)')
+    P = ctx.P
+    b = P.body('ntp_proto::packet::extension_fields::ExtensionFieldData::serialize')
+    get = one(b.calls(r'CipherProvider::get$'), 'cipher lookup in ExtensionFieldData::serialize')
+    enc = one(b.calls(r'ExtensionField::encode_encrypted$'), 'encode_encrypted call')
+    oks = [s for s, v in ret_assigns(b) if v.startswith('Result::Ok')]
+    ctx.check('serialize|ok-sites', len(oks) >= 1, 'Ok returns: %d' % len(oks), sample=len(oks))
+    always = all(blocks_must_pass_block(b, s.bb, [get.bb]) for s in oks)
+    ctx.check('serialize|authenticator-whenever-cipher', always,
+              'the NTS authenticator is written only if the authenticated or encrypted list is non-empty: a time answer whose lists are both empty (request without unique identifier '
+              'and with its cookie after the first eight fields) is sent unauthenticated although the s2c cipher is available', get.where(), sample=always)
+    some_edges = [d0 for (s0, d0, fs) in b.edges() if fs and all(f.kind == 'is' and set(f.variants) <= {'Some'} and re.match(r'^CipherProvider::get\(', S(f.term)) for f in fs)]
+    ok = bool(some_edges) and all(must_pass_block_from(b, d0, s.bb, [enc.bb]) for d0 in some_edges for s in oks)
+    ctx.check('serialize|cipher-implies-authenticator', ok, 'with a cipher present a successful return is reachable without encode_encrypted', enc.where(), sample=len(some_edges))
+
+
+RULES = [r1, r2, r3, r4, r5]
+FLOORS = {'C19-R1': 6, 'C19-R2': 8, 'C19-R3': 20, 'C26-R1': 4, 'C19-R5': 3}
